@@ -13,6 +13,7 @@ CONSTANTS
   Policies = {"seq", "conc"}
   ListFaults <- NoFaults
   MTs = {"image"}
+  WriteFaults = FALSE
   Depth = 6
 INVARIANTS TypeOK AlwaysEqual
 PROPERTIES UnionView TagConflictNeverSilent WriteBoth ReadsChangeNothing PoliciesAgree EqualStaysEqual
